@@ -527,3 +527,68 @@ def run_gaussian_spacing(ctx: Ctx) -> None:
                     return False, f"gaussian derivative '{key}' with per-image spacing rows is not divided by each image's own spacing of axis {key}"
             return True, ""
         _guard(ctx, "T5.gaussian-spacing", f"D={D}", fS, f"gaussian mode spacing D={D}", th)
+
+
+def run_gaussian_structure(ctx: Ctx) -> None:
+    """Derivative-of-Gaussian mode: which axis is differentiated and which are smoothed, and the sign (correlation vs convolution)."""
+    prog = ctx.prog
+    fS = prog.func("deepali.core.image", "spatial_derivatives")
+    ctx.fn(fS)
+    ctx.fn(prog.func("deepali.core.kernels", "gaussian1d_I"))
+    ctx.rule("T5.gaussian-structure", "mode='gaussian' (kernel entries stay exp-atoms; sums of +k and -k entries cancel exactly): the derivative of a "
+                                      "constant field is 0; for a field a*x_j that varies along one axis only, the derivative along every other axis is "
+                                      "exactly 0 (the antisymmetric kernel is applied along the differentiated axis, the smoothing kernel along the "
+                                      "others) and the derivative along x_j at an interior sample is c*a with a constant c > 0 (sign: conv1d correlates) "
+                                      "that is the same for every axis")
+    sig = Fraction(7, 10)  # radius floor(3 sigma) = 2
+    for D, shape in ((2, (5, 6)), (3, (5, 5, 6))):
+        def th(D=D, shape=shape):
+            reset_relations()
+            facts = fresh_facts()
+            it = make_interp(ctx)
+            a = Rat.atom("a")
+            facts.declare_positive(a)
+            n_el = 1
+            for n in shape:
+                n_el *= n
+            const = STensor.from_flat([Rat.atom("c0")] * n_el, [1, 1] + list(shape))
+            out = dict(it.call(fS, const, mode="gaussian", sigma=sig, order=1))
+            if set(out) != set(LETTERS[:D]):
+                return False, f"first-order keys {sorted(out)}"
+            for key, t in out.items():
+                if not all(to_rat(v).is_zero() for v in t.flat()):
+                    return False, f"derivative '{key}' of a constant field is not zero"
+            cs = []
+            for j in range(D):  # spatial dimension j = tensor axis -1-j
+                ax = D - 1 - j
+                vals = []
+                for idx in itertools.product(*[range(n) for n in shape]):
+                    vals.append(a * idx[ax])
+                ramp = STensor.from_flat(vals, [1, 1] + list(shape))
+                out = dict(it.call(fS, ramp, mode="gaussian", sigma=sig, order=1))
+                for k in range(D):
+                    t = out[LETTERS[k]]
+                    if k != j:
+                        if not all(to_rat(v).is_zero() for v in t.flat()):
+                            return False, (f"field a*{LETTERS[j]}: derivative '{LETTERS[k]}' is not zero (the derivative kernel is not applied along "
+                                           f"the differentiated axis only)")
+                    else:
+                        mid = tuple(n // 2 for n in shape)
+                        v = to_rat(t[(0, 0) + mid].flat()[0]) if hasattr(t[(0, 0) + mid], "flat") else to_rat(t[(0, 0) + mid])
+                        c = v / a
+                        if c.atoms() & {"a"}:
+                            return False, f"field a*{LETTERS[j]}: derivative '{LETTERS[j]}' at an interior sample is not proportional to the slope"
+                        if c.is_zero():
+                            return False, (f"field a*{LETTERS[j]}: derivative '{LETTERS[j]}' at an interior sample is exactly zero (the field is "
+                                           f"smoothed, not differentiated, along its own axis)")
+                        s = symt._numeric_sign(c)
+                        if s is None:
+                            raise AnalysisError(f"gaussian-structure: sign of {c} undecided")
+                        if s < 0:
+                            return False, (f"field a*{LETTERS[j]} with a > 0: derivative '{LETTERS[j]}' at an interior sample is negative "
+                                           f"(the derivative kernel is applied mirrored)")
+                        cs.append(c)
+            if any(not (c - cs[0]).is_zero() for c in cs[1:]):
+                return False, "the interior derivative of a unit ramp differs between the axes"
+            return True, ""
+        _guard(ctx, "T5.gaussian-structure", f"D={D}", fS, f"gaussian mode structure D={D}", th)
